@@ -9,25 +9,25 @@ CHECKS = {
         engine="gridmc",
         technique="exhaustive enumeration of configuration matrix x CI-parameter basis x walker product grid on the real code, against a second-quantised reference model",
         text="Every cell of trial kind x (norb,n_up,n_dn) x orbital variant x reference determinant x entry point x batch count is executed on the real library over a complete product grid of complex walker matrices (d+1 non-real letters per matrix entry, d = polynomial degree of the overlap in that entry) and over a basis of the CI parameters; the oracle is the inner product written out in Fock space. For implementations in the stated degree class the grid decides the identity for every walker (combinatorial Nullstellensatz); otherwise it is a dense exhaustive test. Bounded exhaustive exploration is the right level because the defects live in configuration corners no sampled test visits.",
-        note="norb <= 3 (quick) / 4 (thorough), grids capped at 2^16 / 3^9 points (caps reported in evidence), real trial parameters, orthogonal CI bases; trusts NumPy determinants and the Fock reference (self-tested against an independent Jordan-Wigner construction).",
+        note="norb <= 3 (quick) / 4 (thorough), grids capped at 2^16 / 3^9 points (caps reported in evidence), real trial parameters, orthogonal CI bases; trusts NumPy determinants and the Fock reference (self-tested against an independent Jordan-Wigner construction). Since seeded round 3: sectors with n_dn > n_up (unrestricted walkers), complex orbitals for rhf/uhf/ghf/noci, and the density matrix as a call history on one caller-owned dictionary.",
         design="2/C01"),
     "C02": dict(
         engine="gridmc",
         technique="exhaustive enumeration of trial kinds x sizes x Hamiltonian basis (units, pair sums, slot pairs, dense) x walker product grid on the real code, against <psi|H|phi>/<psi|phi> in Fock space; step-size ladder for the finite-difference trials",
         text="The local energy is affine in (h0,h1) and quadratic in each Cholesky matrix, and its numerator is a low-degree polynomial in the walker entries, so evaluating every Hamiltonian of a polarisation basis on a complete walker product grid decides the identity for the implementation's degree class and is an exhaustive structured test otherwise; all trial kinds, both walker containers, spin-dependent one-body terms where the property admits them. The AD/finite-difference trials are additionally checked for quadratic convergence on a step ladder.",
-        note="norb <= 3 (+ two 4-orbital sizes) quick / 4 thorough; walker grids capped at 2^12 / 3^8 points for the energy (caps reported); walkers within 1e-2 of a node of the reference overlap excluded beforehand; tolerances 1e-9 (float64), 2e-5 (complex64 intermediates of cisd/ucisd), 3e-6 at the default FD step.",
+        note="norb <= 3 (+ two 4-orbital sizes) quick / 4 thorough; walker grids capped at 2^12 / 3^8 points for the energy (caps reported); walkers within 1e-2 of a node of the reference overlap excluded beforehand; tolerances 1e-9 (float64), 2e-5 (complex64 intermediates of cisd/ucisd), 3e-6 at the default FD step. Sectors with n_dn > n_up and complex orbitals (rhf/uhf/ghf/noci) included.",
         design="2/C02"),
     "C03": dict(
         engine="gridmc",
         technique="exhaustive enumeration of trial kinds x sizes x Cholesky basis x walker product grid on the real code, against <psi|L_g|phi>/<psi|phi> in Fock space and the log-derivative of the public overlap",
         text="The force bias is linear in each Cholesky matrix; every symmetric unit matrix plus a dense triple (g-axis order) on a complete walker product grid decides it for all trial kinds (Green's-function, reverse-mode AD and hand-coded implementations are all compared with the same Fock-space mixed expectation, hence with each other) and both walker containers; the defining logarithmic derivative is checked through the public calc_overlap by central differences.",
-        note="same bounds as C02; central-difference comparison at 1e-5 relative.",
+        note="same bounds as C02; central-difference comparison at 1e-5 relative. Sectors with n_dn > n_up and complex orbitals (rhf/uhf/ghf/noci) included; invariance under walker rescaling.",
         design="2/C03"),
     "C04": dict(
         engine="probmc",
         technique="exact Gaussian field average by enumerating every tensor Gauss-Hermite node through the real propagate() (hooked importance function), dt-ladder ratio test against scipy expm in Fock space; exhaustive field/weight/shift words for the weight-rule branches",
         text="The auxiliary field is the environment: every node of a tensor Gauss-Hermite rule (16, 12^2, 8^3 nodes) is played as one walker of one real propagate() call, so the field average is computed exactly (probabilistic model checking) instead of sampled; it is compared with exp(-dt(H-E_shift)) on a seven-step dt ladder (ratio per halving >= 3 in the small-dt tail), over propagator x trial kind x n_chol x mean-field rdm1 x walker x shift. The propagated walker, the importance function, theta, the stored overlap and the applied weight are each compared node by node with explicit-matrix references, and every branch of the weight rule (cos<=0, <1e-3, >100, product>100, normal) is forced by an exhaustive field/weight/shift alphabet and counted.",
-        note="norb <= 3 quick / 4 thorough; quadrature/round-off floor 2e-9; reads imp_fun/theta through the guarded add-only hook; restricted propagator compared with the spin-averaged h1 it is documented to use.",
+        note="norb <= 3 quick / 4 thorough; quadrature/round-off floor 2e-9; reads imp_fun/theta through the guarded add-only hook; restricted propagator compared with the spin-averaged h1 it is documented to use. Intermediates rebuilt on a carried dictionary (decoy Hamiltonian first); the free-projection origin ene0 is a letter the phaseless step must not depend on.",
         design="2/C04"),
     "C19": dict(
         engine="gridmc+probmc",
@@ -45,19 +45,19 @@ CHECKS = {
         engine="probmc+seqmc",
         technique="exact field average over ALL histories of tensor Gauss-Hermite nodes pushed through k real propagate_free() calls; per-history explicit-matrix bookkeeping oracle; dt-ladder ratio test against expm in Fock space; free-projection sampler over every virtual-RNG stream",
         text="One population contains every history of quadrature nodes over all k*n_chol fields (k = 1..3 consecutive steps), so the expectation of norm x walker is computed exactly and compared with exp(-dt(H-ene0))^k on a dt ladder; for every single history the accumulated norm times the orthonormal walker is compared with the un-normalised product of explicit propagator matrices, the stored overlap with the overlap of that state, the truncated exponential with scipy expm within its Taylor remainder; the sampler's free-projection block energy is recomputed from its returned trajectory for every stream of a virtual random source.",
-        note="norb <= 3 quick / 4 thorough, both spins present; floor 2e-9; second-order ratio judged in the small-dt tail and for n_exp_terms >= 6.",
+        note="norb <= 3 quick / 4 thorough, both spins present; floor 2e-9; second-order ratio judged in the small-dt tail and for n_exp_terms >= 6. n_exp_terms {4,6,10,14}, n_batch {1,2}, intermediates rebuilt on a carried dictionary (decoy Hamiltonian first).",
         design="2/C05"),
     "C06": dict(
         engine="seqmc",
         technique="exhaustive enumeration of AD entry points x jvp/vjp (called exactly as the driver does) x block structures x every virtual-RNG stream x the complete basis of symmetric observables; forward-mode vs finite differences of the same primal, reverse vs forward, analytic one-body limit, density trace",
         text="For a fixed random stream the block estimator is a deterministic function of the coupling; the virtual random source makes 'every seed' enumerable: every word over a 3-letter field alphabet on the varying draw positions x every comb-offset word. Derivatives are linear in the observable, so the complete symmetric basis decides every observable. Oracles: jvp == central difference of the same primal (smoothness pre-checked on the primal alone), <vjp density, O_b> == jvp response for every basis element, primal == plain sampler at zero coupling, one-body limit (zero Cholesky vector) energy = sum of occupied orbital energies and response = tr(rho O), per-spin trace of the AD density = n_sigma for a single block.",
-        note="3 orbitals, 3 walkers, 54-324 streams per cell; finite-difference tolerance 2e-6 relative; converged and undamped-stable SCF trial from an independent NumPy SCF.",
+        note="3 orbitals, 3 walkers, 54-324 streams per cell; finite-difference tolerance 2e-6 relative; converged and undamped-stable SCF trial from an independent NumPy SCF. Unrestricted cells carry h1_up != h1_dn; one system has a near-degenerate occupied pair; the primal at coupling 1e-3 is compared with the publicly assembled coupled Hamiltonian for every observable.",
         design="2/C06"),
     "C08": dict(
         engine="seqmc",
         technique="breadth-first search over sampler/driver operation words x all virtual-RNG streams on the real objects; invariant from the guarded hook at every propagate() entry; differential replay through single public propagate() steps with explicit overlap refresh",
         text="The operation alphabet is what the library can produce: the five sampler entry points with two block structures, each followed by the driver's glue (QR, global comb, e_estimate update); all words to depth 2 (3 thorough) are executed on the real sampler for both walker types and every stream; in every state the hook's max relative |cached - recomputed| overlap at propagate() entry must vanish, and the whole word is replayed in parallel through single public steps with an explicit refresh after every walker modification - weights, walkers and block energies must agree. Uneven start weights and a large time step make combs duplicate walkers (counted) so a missing refresh cannot hide.",
-        note="hook is add-only and guarded; streams: 3 field letters on 2 (3) draw positions; 4 walkers.",
+        note="hook is add-only and guarded; streams: 3 field letters on 2 (3) draw positions; 4 walkers. Configurations: restricted+rhf, unrestricted+uhf, restricted+open-shell uhf, restricted+unnormalised rhf (without the relaxing entries); init_prop_data followed directly by one public step.",
         design="2/C08"),
     "C09": dict(
         engine="seqmc",
@@ -69,7 +69,7 @@ CHECKS = {
         engine="seqmc",
         technique="exhaustive enumeration of the sampler option matrix (entry point x walker type x block structure x batch count) x every virtual-RNG stream; differential oracle between entry points, public-call recomputation of the single-block estimator, bit-reproducibility in and across processes; driver.afqmc over its option matrix",
         text="Every cell of entry point {plain, ad, ad_norot, ad_nosr, ad_nosr_norot, 2-RDM} x {restricted, unrestricted} x block structure x n_batch is called as the driver calls it for every stream (all words over 3 field letters on 4 (6) draw positions x comb-offset words); callable, equal energies for equal block structure, single-block estimator = weighted capped real local energy recomputed with public calls (capping forced by a far e_estimate letter), identical results on repetition and in another process, independent of n_batch; driver.afqmc itself over ad_mode x orbital_rotation x do_sr x walker_type under the virtual source.",
-        note="3 orbitals, 4 walkers; trial converged by an independent SCF and stable under the undamped Roothaan step.",
+        note="3 orbitals, 4 walkers; trial converged by an independent SCF and stable under the undamped Roothaan step. Unrestricted cells carry h1_up != h1_dn; the file route options -> _prep_afqmc -> driver.afqmc is run with the real jax.random for seeds {0,1,7} twice each.",
         design="2/C12"),
     "C14": dict(
         engine="seqmc",
@@ -81,49 +81,49 @@ CHECKS = {
         engine="probmc",
         technique="exhaustive enumeration of all 2^n discrete auxiliary-field configurations (one walker per leaf, branch forced through the Gaussian inputs, boundary probes pinning every selection probability) on the real CPMC propagators; exact summed identity in Fock space; all ordered spin-orbital pairs x update-constant alphabet for the fast updates; all paths of the neighbour propagators through a pass-through random source",
         text="Every field configuration of one constrained-path step is executed as one walker of a single population (probes at p_ref -+ 1e-8 on every internal node pin the implementation's probabilities), per leaf the walker, stored overlap and weight are compared with a NumPy reference, and sum_x p w phi'/O' is compared in Fock space with exp(dt E_shift) e^{-dt K/2} prod_i e^{-dt U n_up n_dn} e^{-dt K/2} phi/O for the library's own half step (built through the public intermediates from a Hubbard ham_data assembled as the example does) whenever no constraint was active (counted); O(N^2) overlap ratios and Green's-function updates are compared with from-scratch values for ALL ordered pairs of spin-orbitals and a 4x4 constant alphabet, UHF and GHF trials; fast vs slow propagators walker by walker; neighbour-interaction variants over all 2^(n+4*bonds) paths.",
-        note="chains 2-4 and 2x2 (5 sites thorough), U in {1,4,8}, dt in {0.01,0.1}; zero-probability histories (incl. u = 1.0 exactly) are skipped and counted (C09 territory); propagator_cpmc_continuous is outside the property.",
+        note="chains 2-4 and 2x2 (5 sites thorough), U in {1,4,8}, dt in {0.01,0.1}; zero-probability histories (incl. u = 1.0 exactly) are skipped and counted (C09 territory); propagator_cpmc_continuous is outside the property. History family: propagator objects differing in one static-jit attribute (bond list, dt) used one after the other in one process.",
         design="2/C10"),
     "C17": dict(
         engine="gridmc",
         technique="exhaustive enumeration of all Gram matrices B B^T with B in {-1,0,1}^(n x r) x diagonal scalings x thresholds for the three Cholesky routines; jvp along every symmetric basis tangent vs Richardson central differences; shell-chunked routine on a molecule catalogue against int2e; the 2-RDM sampler entry with a spy on its Cholesky call",
         text="All distinct B B^T (n <= 3 quick / 4 thorough) x every scaling in {1e-3,1,1e3}^n x thresholds {1e-2,1e-6,1e-10}: element-wise reconstruction within the threshold for the NumPy routine, exactness at n_chol = rank and finite jvp = finite differences (where the pivot sequence is stable, pre-checked on a reference pivoted Cholesky) for the JAX routine; chunked_cholesky against mol.intor('int2e') on a molecule/basis catalogue; propagate_phaseless_ad_1 checked to pass the symmetrised ERI and reproduce it.",
-        note="tolerance thr + n*1e-10 (the routine's own regulariser) + 1e-12 scale; rank 0 and n_chol != rank are outside the statement; molecules up to 19 AOs.",
+        note="tolerance thr + n*1e-10 (the routine's own regulariser) + 1e-12 scale; rank 0 and n_chol != rank are outside the statement; molecules up to 19 AOs. chunked_cholesky also with buffers cmax in {1,2,3}: it may raise only when the buffer is too small, and whatever it returns meets the threshold.",
         design="2/C17"),
     "C18": dict(
         engine="gridmc",
         technique="exhaustive enumeration of spectra (all multisets over {0,1,1+1e-7,1+1e-3,2}) x Givens frames x symmetric basis tangents for the eigen-derivative; SCF systems x every word of Givens(occ,virt,theta) rotations of the converged orbitals x malformed guesses for optimize, pyscf as independent solver",
         text="_eigh's custom JVP is compared with first-order perturbation theory whenever all gaps exceed 1e-5 and must be finite otherwise, for every spectrum multiset of size <= 4 (5), five frames and every symmetric basis tangent; rhf/uhf.optimize on synthetic gapped, exactly degenerate and molecular (Loewdin basis) Hamiltonians from every word of length <= 2 (3) of occupied-virtual Givens rotations of the converged orbitals and four malformed guesses: orthonormal output always, converged input keeps its occupied projector, energy = pyscf SCF energy on well-conditioned cells (contraction factor computed from the inputs), jvp finite everywhere and equal to central differences on well-conditioned systems.",
-        note="energy/fixed-point oracles judged only where the linearised undamped Roothaan step contracts (rho <= 0.7 / 0.9), the rest is counted as ill-conditioned.",
+        note="energy/fixed-point oracles judged only where the linearised undamped Roothaan step contracts (rho <= 0.7 / 0.9), the rest is counted as ill-conditioned. Sectors with n_dn > n_up and the spin-flip differential oracle included.",
         design="2/C18"),
     "C13": dict(
         engine="gridmc",
         technique="exhaustive enumeration of trial kinds x sizes x containers x column scalings x walker product grids for the QR contract and measurement invariance; initial-walker generator over a finite alphabet of spin-breaking angles, density matrices and flags against the Fock model",
         text="For every trial kind, container and badly scaled column pattern the returned Q is orthonormal, spans the same space, Q^H W is triangular with the returned factor, overlap(W) = overlap(Q) x factors and energy / force bias are unchanged, through qr_vmap(_uhf) and orthonormalize_walkers/_orthogonalize_walkers of every propagator class; get_init_walkers for every kind x restricted flag x rdm1 source x spin-breaking angle (incl. pi/2-1e-4 and pi/2) must return orthonormal walkers of the right shape with overlap bounded away from zero or raise, and reproduce the variational energy for single determinants.",
-        note="walker grids capped (256/243 points quick, 1024/729 thorough); energy invariance at 1e-9 / 2e-5 (complex64 kinds) / 6e-6..3e-5 (finite-difference kinds).",
+        note="walker grids capped (256/243 points quick, 1024/729 thorough); energy invariance at 1e-9 / 2e-5 (complex64 kinds) / 6e-6..3e-5 (finite-difference kinds). Initial-walker call histories on one caller-owned wave_data (since seeded round 3).",
         design="2/C13"),
     "C15": dict(
         engine="gridmc+seqmc",
         technique="exhaustive enumeration of unit matrices and polarisation sets for the congruence; breadth-first search over the group generated by Givens rotations, reflections and transpositions with cumulative application of rotate_orbs, invariants evaluated in every state and re-reached states compared",
         text="rotate_orbs is linear in (h1, chol) and quadratic in C: every X = E_ij in every slot and every C in {E_ab, E_ab+E_cd, dense invertible} decides C^T X C exactly (non-symmetric X and non-orthogonal C included); covariance by BFS over words of 15 generators to depth 3 (4 thorough), rotate_orbs applied cumulatively to the already rotated Hamiltonian (non-initial states), energies / force biases equal to the initial state's and overlap ratio 1 for rhf, uhf, ghf, noci trials in every state, states reached by different words compared.",
-        note="norb <= 3 (4 thorough); multi-Slater and CI kinds are tied to their orbital basis and outside the quantifier.",
+        note="norb <= 3 (4 thorough); multi-Slater and CI kinds are tied to their orbital basis and outside the quantifier. Call histories: several matrices applied to the same source dictionary and chained, input dictionary bitwise unchanged.",
         design="2/C15"),
     "C07": dict(
         engine="probmc+schedmc",
         technique="exhaustive enumeration of all weight words over a 7-letter alphabet x every open interval of comb offsets between exact-rational breakpoints (exact integral of the count functions); stateless exploration of ALL schedules of R rank threads over a virtual MPI communicator (eager and rendezvous sends, deadlock / collective-mismatch detection, visited-state pruning for R=4)",
         text="Every weight vector of length <= 5 (6, and 8 on 5 letters, thorough) over {1,0,fraction,integer,negative,tiny,huge} and every open offset interval between breakpoints computed in exact rationals (plus the rounding-free exact ties) is run through all five comb implementations on index-tagged walkers: copies of existing walkers only, equal survivor weights, conserved |weight|, floor/ceil counts, zero weight never selected, exact mean N|w_i|/W, up/down copied together, agreement with a boring serial comb. The multi-rank comb is executed on R = 2..4 real rank bodies as threads under a controlled scheduler: every schedule (unpruned for R <= 3, visited-state pruned for R = 4; eager and rendezvous send semantics) must terminate without deadlock or collective mismatch with exactly one outcome, the serial comb of the rank-ordered population with rank 0's offset. Propagator wrappers: offset = uniform(split(key)[1]), key advanced once; not_a_comm == one-rank world.",
-        note="offsets within 2^-30 of a breakpoint are not probed except at rounding-free ties; <= 8 walkers, <= 4 ranks; thorough also runs driver.afqmc on 2 rank threads under all schedules with <= 1 preemption.",
+        note="offsets within 2^-30 of a breakpoint are not probed except at rounding-free ties; <= 8 walkers, <= 4 ranks; thorough also runs driver.afqmc on 2 rank threads under all schedules with <= 1 preemption. Call histories across populations of different dtype/shape in one process and weight letters far outside [1e-3,100] in the wrapper layer (since seeded round 3).",
         design="2/C07"),
     "C16": dict(
         engine="gridmc",
         technique="exhaustive enumeration of a finite catalogue (molecules x geometry ladder x basis x mean field x frozen core x Cholesky threshold / density fitting x basis_coeff x user integrals incl. Hubbard lattices x set-up options) through the real prep_afqmc -> files -> _prep_afqmc round trip, pyscf as independent solver",
         text="Each cell runs the real preparation step in its own directory, reads everything back through the real set-up routine and compares: trial variational energy (init_prop_data e_estimate) with the pyscf SCF energy, the lowest eigenvalue of the WRITTEN (h0,h1,chol) with pyscf FCI / frozen-core CASCI, the cisd/ucisd mixed energy at the reference determinant with the CC energy functional at the handed-over amplitudes, header and electron counts with mol.nelec. Tolerances are rigorous bounds derived from the pivoted-Cholesky residual, not fits. Quick = greedy covering array over every letter and 22 axis pairs (58 cells + CC sentinels), thorough = full product of 2118 cells.",
-        note="only what the property admits (no UHF/UCCSD with frozen core, no frozen core with user integrals, CC on the default basis); CC on a non-aufbau reference and diverged CCSD cells are counted, not judged; quick tier is a covering array (exhaustive=false), thorough the full product.",
+        note="only what the property admits (no UHF/UCCSD with frozen core, no frozen core with user integrals, CC on the default basis); CC on a non-aufbau reference and diverged CCSD cells are counted, not judged; quick tier is a covering array (exhaustive=false), thorough the full product. Density-fitting axis: auxiliary basis by name / as dict / left to pyscf, incl. orbital bases without a predefined fitting basis.",
         design="2/C16"),
     "C11": dict(
         engine="gridmc+seqmc",
         technique="exhaustive enumeration of determinant lists (every reference, list orders, cut-offs, three sources incl. binary file round trip and pyscf FCI vectors) x walker grids against sum_i c_i <A_i B_i|phi>; zero-variance identity for exact eigenvectors on the whole walker grid; driver.afqmc option cells with the exact trial",
         text="Every determinant of the orbital space as reference, single determinants, all pairs, ordered triples and dense vectors in all rotations / adjacent transpositions, cut-off needed+{0,1,3}, sources dict / Dice-layout binary file read back / pyscf FCI object; overlap equal to the explicit alpha-string x beta-string expansion on the walker grid (one oracle for all representations = the invariance claim). For exact eigenvectors of random Hamiltonians and pyscf FCI ground states of H2, H4, LiH the local energy equals the eigenvalue on the whole grid for every admissible reference and both containers (polynomial identity N - E O = 0), with a sign-flipped control; driver.afqmc over option cells returns every block energy = E_0, with a control run.",
-        note="3 orbitals all fillings, 4 orbitals (2,1),(2,2); grids capped by homogeneous degree beyond 4096 points (quick declares caps); finite-difference energy tolerance 1e-5 relative (measured 1.7e-6).",
+        note="3 orbitals all fillings, 4 orbitals (2,1),(2,2); grids capped by homogeneous degree beyond 4096 points (quick declares caps); finite-difference energy tolerance 1e-5 relative (measured 1.7e-6). Lists with same-spin excitation rank 3 (4 thorough) on 6-8 orbitals and call histories on caller-owned state dicts / files / FCI objects (since seeded round 2).",
         design="2/C11"),
 }
 
